@@ -113,7 +113,14 @@ func sweepEncoder(c coding.DataCoding) (runs []encRun, rtBad []rune, accepted in
 	var rb runBuilder
 	sweepRunes(func(r rune) {
 		b, ok := encodeOne(enc, r)
-		if !ok || len(b) == 0 {
+		if ok && (len(b) == 0 || len(b) > 8) {
+			// outside the run format (1..8 octets): listed as not surviving, which the theorems require to be empty
+			if len(rtBad) < 64 {
+				rtBad = append(rtBad, r)
+			}
+			ok = false
+		}
+		if !ok {
 			rb.reject()
 			return
 		}
@@ -272,7 +279,7 @@ func splitJP(b []byte) (mode int, payload []byte, ok bool) {
 	return mode, payload, string(re) == string(b)
 }
 
-func sweepJP() (runs []jpRun) {
+func sweepJP() (runs []jpRun, unparsed []rune) {
 	enc := coding.ISO2022JPCoding.Encoding().NewEncoder()
 	open := false
 	sweepRunes(func(r rune) {
@@ -289,9 +296,13 @@ func sweepJP() (runs []jpRun) {
 		} else {
 			mode, payload, ok = splitJP(b)
 		}
-		if !ok {
-			fmt.Fprintf(os.Stderr, "gen: ISO-2022-JP output for U+%04X does not have the form [ESC seq] payload [ESC ( B]: %x\n", r, b)
-			os.Exit(2)
+		if !ok || len(payload) == 0 || len(payload) > 8 {
+			// not of the form [ESC seq] payload [ESC ( B]: listed, and the theorems require the list to be empty
+			if len(unparsed) < 64 {
+				unparsed = append(unparsed, r)
+			}
+			open = false
+			return
 		}
 		v, _ := beValue(payload)
 		if open {
@@ -445,13 +456,14 @@ func genCharsets(w *CoqWriter) {
 		}(i, cs)
 	}
 	var jp []jpRun
+	var jpUnparsed []rune
 	var jpDec [3][]encRun
 	var jpBad []rune
 	jpAccepted := 0
 	wg.Add(1)
 	go func() {
 		defer wg.Done()
-		jp = sweepJP()
+		jp, jpUnparsed = sweepJP()
 		for m := 0; m < 3; m++ {
 			jpDec[m] = jpDecodeTable(m)
 		}
@@ -498,6 +510,8 @@ func genCharsets(w *CoqWriter) {
 	}
 	jw.P("].")
 	w.P("Definition rt_bad_iso2022jp : list N := %s.", coqRunes(jpBad))
+	w.P("(* accepted runes whose output is not of that form (first 64) *)")
+	w.P("Definition unparsed_iso2022jp : list N := %s.", coqRunes(jpUnparsed))
 	for m, nm := range []string{"ascii", "kana", "jis"} {
 		emitRuns(subs.get("CsIso2022jpDec"), "dec_runs_iso2022jp_"+nm, jpDec[m])
 	}
